@@ -350,6 +350,7 @@ func checkC14(w *World, r *Report) {
 	}
 	r.Counts["buffer re-allocations in producing functions"] = nGrow
 	checkNoAliasedHeaders(w, r, "R14.3")
+	checkConstantCuts(w, r, reach)
 }
 
 // checkNoAliasedHeaders (R14.3 / R01.7): no string or slice header is manufactured over memory
@@ -397,5 +398,59 @@ func checkNoAliasedHeaders(w *World, r *Report, rule string) {
 	}
 	if n == 0 {
 		r.ok(rule, "(package)", "no string/slice header is manufactured over live buffer memory", "-", "no unsafe.String, unsafe.Slice or header reinterpretation in the package", false)
+	}
+}
+
+// checkConstantCuts (R14.4): template data is never cut at a constant position.  A slice
+// expression s[a:K] or s[K:] with a constant K >= 16 on a string, []byte or []Token in a function
+// on the parse or render paths divides the input by absolute size (a scan window, a chunk, a
+// truncation): what the following code sees then depends on where in the template a tag or a run
+// of text happens to lie.  ([:0] resets and small constant prefixes are not affected.)
+func checkConstantCuts(w *World, r *Report, reach map[*ssa.Function]bool) {
+	tokenT := w.named("Token")
+	n := 0
+	for _, fn := range w.pkgFuncs() {
+		if !reach[fn] {
+			continue
+		}
+		instrsOf(fn, func(in ssa.Instruction) {
+			sl, ok := in.(*ssa.Slice)
+			if !ok {
+				return
+			}
+			data := false
+			switch t := sl.X.Type().Underlying().(type) {
+			case *types.Basic:
+				data = t.Info()&types.IsString != 0
+			case *types.Slice:
+				if b, ok := t.Elem().Underlying().(*types.Basic); ok && b.Kind() == types.Uint8 {
+					data = true
+				}
+				if types.Identical(t.Elem(), tokenT) {
+					data = true
+				}
+			}
+			if !data {
+				return
+			}
+			for _, bound := range []ssa.Value{sl.Low, sl.High} {
+				if bound == nil {
+					continue
+				}
+				c, ok := bound.(*ssa.Const)
+				if !ok || c.Value == nil || c.Value.Kind() != constant.Int {
+					continue
+				}
+				k, _ := constant.Int64Val(c.Value)
+				if k < 16 {
+					continue
+				}
+				n++
+				r.bad("R14.4", ssaName(fn), "data cut at a constant position", w.posOf(in.Pos()), fmt.Sprintf("the input (or token/text data) is sliced at the constant offset %d: the rest of the algorithm sees a window or chunk whose boundary is an absolute size, so a tag, a run of whitespace or a piece of text that straddles it is read differently from the same construct elsewhere", k))
+			}
+		})
+	}
+	if n == 0 {
+		r.ok("R14.4", "(package)", "template data is never cut at a constant position", "-", "no slice expression with a constant bound >= 16 on strings, bytes or tokens on parse/render paths", false)
 	}
 }
